@@ -322,7 +322,7 @@ def correspondence(ctx):
         kinds_seen[item["kind"]] = kinds_seen.get(item["kind"], 0) + 1
         res.case(key, nontrivial=(nz0 > 0 or ncol >= 3),
                  sample=dict(space=key, elements=int(l2g.shape[0]), support=int(np.count_nonzero(sup)), colours=ncol,
-                             zero_multiplier_entries=nz0) if (nz0 > 0 and ncol >= 3) else None)
+                             zero_multiplier_entries=nz0) if (nz0 > 0 and ncol >= 3 and len(res.samples) < 3) else None)
         owned_py, _ = _owned_python(l2g, mult, sup)
 
         def h(ans, key=key, cm=cm, srt=srt, ptr=ptr, status=status, owned_py=owned_py):
@@ -462,7 +462,7 @@ def _recorded_launches(ctx, spaces, model_launches):
             res.case(("recorded", op, test["key"], trial["key"]),
                      nontrivial=ncol >= 3 or _zero_mult_count(ts.local_multipliers, ts.support) > 0,
                      sample=dict(recorded=op, test=test["key"], trial=trial["key"], kernel_calls=len(calls),
-                                 launch_sizes=[len(x) for x in got]) if ncol >= 3 else None)
+                                 launch_sizes=[len(x) for x in got]) if (ncol >= 3 and len(res.samples) < 2) else None)
             if got != m_test["launches"]:
                 res.disagree("recorded test_elements per kernel call", operator=op, test=test["key"],
                              impl=[x[:8] for x in got[:4]], model=[x[:8] for x in m_test["launches"][:4]])
